@@ -124,6 +124,65 @@ def check_one(item):
     return obs
 
 
+IN_PLACE_BY_CONTRACT = {"do_join"}       # internal mutators that the builders call on their own copy
+
+
+def public_targets(r):
+    """public methods of classes that have builder methods, which are neither builders themselves nor render /
+    observer methods (those are the subject of C02): join variants, operator helpers, factory shortcuts ..."""
+    out, seen = [], set()
+    for ci in sorted(r.classes.values(), key=lambda c: c.qual):
+        if not any("builder" in f.decorators for k in ci.mro for f in k.methods.values()):
+            continue
+        for k in ci.mro:
+            for n, f in k.methods.items():
+                if n.startswith("_") or "builder" in f.decorators or f.kind != "method" or n in IN_PLACE_BY_CONTRACT:
+                    continue
+                if n.endswith("_sql") or n in ("get_sql", "nodes_", "fields_", "find_", "get_parameterized_sql"):
+                    continue
+                res = ci.resolve(n)
+                if not res or res[0] != "func" or res[1] is not f:
+                    continue
+                key = (f.qual, ci.qual)
+                if key not in seen:
+                    seen.add(key)
+                    out.append(key)
+    return out
+
+
+def check_public(item):
+    """frame/public: a public method that is not a builder leaves every object that existed before the call untouched"""
+    fq, cq = item
+    r = repo()
+    fi, ci = r.funcs[fq], r.classes[cq]
+    name = f"{fi.short}@{ci.short}"
+    run = run_function(fi, ci, pre=_pre)
+    if run.error:
+        return [Obligation(PROP, f"{name}|frame/public", "frame/public", fi.short, UNSUPPORTED, reason=run.error)]
+    ex = run.ex
+    bad = {}
+    for o in run.outcomes:
+        for w in o.state.writes:
+            if w.owned or allowed_alias_write(ex, w, run.params) or not ex.smt.feasible(o.state.pc + [w.guard]):
+                continue
+            bad[f"{w.kind}:{canon(w.path)}.{w.attr}".rstrip(".")] = w
+    if not bad:
+        return [Obligation(PROP, f"{name}|frame/public", "frame/public", fi.short, PROVED,
+                           detail=f"{fi.name}() writes only to objects it allocates (and the alias of an un-aliased "
+                                  "argument)")]
+    return [Obligation(PROP, f"{name}|frame/public|{k}", "frame/public", fi.short, REFUTED,
+                       detail=f"{fi.name}() is not a builder (no copy is made) and writes {w.kind} to {canon(w.path)} "
+                              f"({w.attr or 'container'}) in {w.func} line {w.lineno}",
+                       reason=f"path condition: {z3.simplify(w.guard)}",
+                       witness={"family": "frame", "func": fi.qual, "cls": ci.qual, "path": canon(w.path),
+                                "kind": w.kind, "attr": w.attr}) for k, w in sorted(bad.items())]
+
+
+def _dispatch(item):
+    return check_public(item[1:]) if item[0] == "$public" else check_one(item)
+
+
 def generate(tier="quick"):
     r = repo()
-    return parallel(check_one, targets(r)), {"functions": sorted({t[0] for t in targets(r)})}
+    items = list(targets(r)) + [("$public",) + t for t in public_targets(r)]
+    return parallel(_dispatch, items), {"functions": sorted({t[0] for t in targets(r)} | {t[0] for t in public_targets(r)})}
